@@ -25,6 +25,10 @@ class DeFactoCookiePolicy(DefaultCookiePolicy):
     '''
     def __init__(self, *args, **kwargs):
         self.cookie_jar = kwargs.pop('cookie_jar')
+        # A cookie set without a Domain attribute belongs to the host that
+        # set it, not to its subdomains as well.
+        kwargs.setdefault(
+            'strict_ns_domain', DefaultCookiePolicy.DomainStrictNonDomain)
         DefaultCookiePolicy.__init__(self, *args, **kwargs)
 
     def set_ok(self, cookie, request):
